@@ -191,7 +191,7 @@ func vpC26Build(t *rapid.T, root string) *vpC26World {
 		home = w.bases[0]
 	}
 	w.dirs = []string{home}
-	outsideTargets := []string{out, w.furn["f1"], filepath.Join(out, "CANARYdir"), filepath.Join(sb, "priv"), w.furn["f3"], root, sb2, filepath.Join(out, "CANARYnew"), "/"}
+	outsideTargets := []string{out, w.furn["f1"], filepath.Join(out, "CANARYdir"), filepath.Join(sb, "priv"), w.furn["f3"], root, sb2, filepath.Join(out, "CANARYnew")}
 	n := rapid.IntRange(2, 8).Draw(t, "nodes")
 	for i := 0; i < n; i++ {
 		l := fmt.Sprintf("n%d", i)
@@ -203,8 +203,10 @@ func vpC26Build(t *rapid.T, root string) *vpC26World {
 			continue
 		}
 		real := filepath.Join(realParent, name)
-		if !vpUnder(real, w.bases) && len(w.bases) > 0 {
-			continue // never build through a link into the protected zone ourselves
+		// never build through a link into the protected zone ourselves, and never outside
+		// the sandbox directory of this world (links only ever point inside the world root)
+		if (!vpUnder(real, w.bases) && len(w.bases) > 0) || !vpUnder(real, []string{sb}) {
+			continue
 		}
 		if _, err := os.Lstat(real); err == nil {
 			w.paths = append(w.paths, spelled)
@@ -277,7 +279,7 @@ func (w *vpC26World) genPath(t *rapid.T, l string) string {
 		}
 		fallthrough
 	default:
-		p = rapid.SampledFrom([]string{"", "sb/a", "./x", w.dirs[0] + "/\x00", w.dirs[0] + "/a\x01b", w.dirs[0] + "/é", w.dirs[0] + "/é", w.dirs[0] + "/", w.dirs[0] + "//a", "/"}).Draw(t, l+"podd")
+		p = rapid.SampledFrom([]string{"", "sb/a", "./x", w.dirs[0] + "/\x00", w.dirs[0] + "/a\x01b", w.dirs[0] + "/é", w.dirs[0] + "/é", w.dirs[0] + "/", w.dirs[0] + "//a"}).Draw(t, l+"podd")
 	}
 	return p
 }
